@@ -1891,6 +1891,8 @@ class TemplateArgument(object):
         """Parse instantiation (ex. <int>) and set list of Declarations."""
         parser = declast.Parser(self.instantiation, namespace)
         self.asts = parser.template_argument_list()
+        # Nothing may follow the closing '>'.
+        parser.mustbe("EOF")
 
 
 ######################################################################
